@@ -90,6 +90,12 @@ class Check:
         self.rundir = os.path.join(VERIF, "run", "%s-%d" % (pid, os.getpid()))
         os.makedirs(self.rundir, exist_ok=True)
         self._n = 0
+        import glob
+        for old in glob.glob(os.path.join(VERIF, "replays", pid + "-*.json")):
+            try:
+                os.unlink(old)
+            except OSError:
+                pass
 
     # ---- building ------------------------------------------------------
     def build(self, flavor, harnesses):
